@@ -318,7 +318,13 @@ Lemma matcher_ext (m m' : matcher) ver cf cs incoming pkt h pr pl :
   drop_ct_m m ver cf cs incoming pkt h pr pl = drop_ct_m m' ver cf cs incoming pkt h pr pl
   /\ forall tracked, drop_m m cf incoming pkt h pr pl tracked = drop_m m' cf incoming pkt h pr pl tracked.
 Proof.
-  intros E. unfold drop_ct_m, drop_m, in_conns_m. split; [|intros tracked]; now rewrite ?E.
+  intros E. unfold drop_ct_m, drop_m, in_conns_m. split; [|intros tracked].
+  - destruct (remote_check h (pk_remote pkt)); [reflexivity|].
+    destruct (negb (any_contains (routable cf) (pk_local pkt))); [reflexivity|].
+    rewrite (E incoming pkt pr pl).
+    destruct (aget pkt_eqb pkt cs) as [c|]; [|reflexivity].
+    now rewrite (E (ce_incoming c) pkt pr pl).
+  - now rewrite (E incoming pkt pr pl).
 Qed.
 
 Lemma drop_ct_m_table fw cs incoming pkt h pr pl :
@@ -337,7 +343,8 @@ Proof.
   assert (E : forall inc p q l, rules_matcher cf inr outr inc p q l = table_matcher (mkFw cf ti to 0) inc p q l).
   { intros [|] p q l; unfold rules_matcher, table_matcher, fw_table; cbn [fw_in fw_out]; symmetry; now apply refine. }
   destruct (matcher_ext _ _ 0 cf cs incoming pkt h pr pl E) as [H1 H2].
-  split; [rewrite H1|intros tracked; rewrite H2]; apply (drop_ct_m_table (mkFw cf ti to 0)).
+  destruct (drop_ct_m_table (mkFw cf ti to 0) cs incoming pkt h pr pl) as [T1 T2].
+  split; [rewrite H1; exact T1|intros tracked; rewrite H2; exact (T2 tracked)].
 Qed.
 
 (* new_firewall succeeds exactly when every rule of both directions is valid *)
